@@ -96,3 +96,4 @@ register('C02', world='w2:W2World', quick=1800, thorough=100000, level='explorat
          assumptions=W2_ASSUME + ["no schedule or fault enters this property; the simulation contributes state diversity only",
                                   "zero/false/empty field values of the value classes belong to C03 and are not generated",
                                   "names not exercised through set_property and why: see NOT_GENERATED in simfim/w2_props.py"])
+register('C10', world='w2:W2World', quick=1800, thorough=100000, level='exploration', rule='W2', assumptions=W2_ASSUME)
